@@ -106,6 +106,22 @@ def nestedCase : P String := do
       let g := if C02.project c s.log = s.glog then "ok" else "diff"
       pure s!"T {joinNats (encItems s.log)} C {joinNats (encSVal (buildStateList [] s0.conf) ++ confs.flatten)} G {g}"
 
+/-- debugging aid: the model's ghost log and the projection of its item log, printed -/
+def nestedGhostCase : P String := do
+  let c ← ncfg
+  let es ← list scriptEntry
+  let h ← nats
+  let qmax := (h.length + scriptCmds es + 2) * 8
+  let fuel := scriptCmds es + 2
+  match NSt.init c with
+  | none => pure "noinit"
+  | some s0 =>
+    match runSteps (mkScript es) c qmax fuel h s0 [] with
+    | none => pure "oof"
+    | some (s, _) =>
+      let txt := s!"GLOG {repr s.glog} PROJ {repr (C02.project c s.log)}"
+      pure (String.ofList (txt.toList.map fun ch => if ch = '\n' then ' ' else ch))
+
 def c02mCase : P String := do
   let c ← ncfg
   let v ← svalTop
@@ -119,6 +135,6 @@ def c03mCase : P String := do
   pure (C03.verdict c (buildStateTree v .nil) items)
 
 def hC02 : List (String × Handler) :=
-  [("nested", fun ns => run nestedCase ns), ("c02m", fun ns => run c02mCase ns), ("c03m", fun ns => run c03mCase ns)]
+  [("nested", fun ns => run nestedCase ns), ("nestedg", fun ns => run nestedGhostCase ns), ("c02m", fun ns => run c02mCase ns), ("c03m", fun ns => run c03mCase ns)]
 
 end Handlers
